@@ -158,6 +158,96 @@ def drive(coro):
     raise report.HarnessError('coroutine suspended in a loop-less driver')
 
 
+PAIR_PATHS = ['/', '/static', '/static/', '/static/file.css', '/static/sub', '/static/sub/', '/static/sub/file.css',
+              '/static/noext', '/static/index.html', '/sub', '/sub/', '/sub/file.css', '/sub/deep/x.txt', '/index.html',
+              '/static/../secret.txt', '/static/image.gif', '/nomatch', '/static/missing.css']
+
+
+def make_apps(mapping, ep, wrapped):
+    """One WSGIApp and one ASGIApp over the given mapping object, plus a function running one request on each."""
+    import engineio
+    eng, aeng = EngineStub(), AsyncEngineStub()
+    hits = {'wrapped': 0}
+
+    def other(environ, start_response):
+        hits['wrapped'] += 1
+        start_response('200 OK', [('Content-Type', 'text/plain')])
+        return [b'WRAPPED']
+
+    async def aother(scope, receive, send):
+        hits['wrapped'] += 1
+        await send({'type': 'http.response.start', 'status': 200, 'headers': []})
+        await send({'type': 'http.response.body', 'body': b'WRAPPED'})
+    wapp = engineio.WSGIApp(eng, other if wrapped else None, static_files=mapping, engineio_path=ep)
+    aapp = engineio.ASGIApp(aeng, aother if wrapped else None, static_files=mapping, engineio_path=ep)
+
+    def request(kind, path):
+        hits['wrapped'] = 0
+        eng.hits = aeng.hits = 0
+        if kind == 'wsgi':
+            calls = []
+            env = {'REQUEST_METHOD': 'GET', 'PATH_INFO': path, 'QUERY_STRING': '', 'SERVER_NAME': 'h',
+                   'SERVER_PORT': '80', 'wsgi.url_scheme': 'http'}
+            try:
+                body = b''.join(wapp(env, lambda st, hd, exc_info=None: calls.append((st, hd))))
+            except Exception as e:
+                return {'who': 'exception', 'exc': type(e).__name__}
+            if len(calls) != 1:
+                return {'who': 'malformed', 'detail': 'start_response x%d' % len(calls)}
+            return _classify(eng.hits, hits['wrapped'], int(calls[0][0].split(' ')[0]), dict(calls[0][1]).get('Content-Type'), body)
+        sent = []
+
+        async def receive():
+            return {'type': 'http.request', 'body': b'', 'more_body': False}
+
+        async def send(ev):
+            sent.append(ev)
+        try:
+            drive(aapp({'type': 'http', 'method': 'GET', 'path': path, 'query_string': b'', 'headers': []}, receive, send))
+        except report.HarnessError:
+            raise
+        except Exception as e:
+            return {'who': 'exception', 'exc': type(e).__name__}
+        if [e['type'] for e in sent] != ['http.response.start', 'http.response.body']:
+            return {'who': 'malformed', 'detail': 'events %r' % [e['type'] for e in sent]}
+        hdrs = {k.decode().lower(): v.decode() for k, v in sent[0].get('headers', [])}
+        return _classify(aeng.hits, hits['wrapped'], sent[0]['status'], hdrs.get('content-type'), sent[1].get('body', b''))
+    return request
+
+
+def run_pairs(base, out):
+    """Request p1 then p2 on the same application object (same mapping dict): the answer to p2 must be what a
+    fresh application gives for p2 - routing depends on the path only, not on the history of requests."""
+    import copy
+    n = 0
+    for mname in mappings(base):
+        for wrapped in (False, True):
+            fresh = {}
+            for kind in ('wsgi', 'asgi'):
+                for p2 in PAIR_PATHS:
+                    fresh[(kind, p2)] = make_apps(copy.deepcopy(mappings(base)[mname]), 'engine.io', wrapped)(kind, p2)
+            for kind in ('wsgi', 'asgi'):
+                for p1 in PAIR_PATHS:
+                    req = make_apps(copy.deepcopy(mappings(base)[mname]), 'engine.io', wrapped)
+                    req(kind, p1)
+                    for p2 in PAIR_PATHS:
+                        got = req(kind, p2)
+                        n += 1
+                        if got != fresh[(kind, p2)]:
+                            out.append(report.Violation(
+                                {'impl': kind, 'kind': 'history_dependent_routing', 'trigger': 'request_pair'},
+                                '[%s mapping=%s wrapped=%s] after a request for %r (and others), %r is answered %r; a fresh application answers %r'
+                                % (kind, mname, wrapped, p1, p2, _brief(got), _brief(fresh[(kind, p2)])),
+                                {'harness': 'pair', 'app': kind, 'mapping': mname, 'wrapped': wrapped, 'p1': p1, 'p2': p2},
+                                weight=(0, len(p1) + len(p2))))
+                            break
+    return n
+
+
+def _brief(o):
+    return {k: (v[:30] if isinstance(v, (bytes, str)) else v) for k, v in o.items()}
+
+
 def run_wsgi(path, mapping, ep, wrapped):
     import engineio
     eng = EngineStub()
@@ -460,6 +550,10 @@ def run(ctx):
                 rep.add(report.Violation.from_json(v))
             for k, v in st.items():
                 tot[k] = tot.get(k, 0) + v
+        pair_out = []
+        npairs = run_pairs(base, pair_out)
+        for v in pair_out:
+            rep.add(v)
         lcases = 0
         louts = set()
         for seq, up, down, wrapped in lifespan_cases(3):
@@ -476,20 +570,21 @@ def run(ctx):
     finally:
         shutil.rmtree(top, ignore_errors=True)
     rep.coverage = {
-        'evaluations': tot['runs'] + lcases,
+        'evaluations': tot['runs'] + lcases + npairs,
         'distinct_nontrivial': len(paths) * len(mappings(base)) * len(ENDPOINTS) * 2,
         'rule': 'every path of <= %d segments over %r with and without trailing slash (%d paths) x 8 static '
                 'mappings x endpoints %r x wrapped app present/absent x {WSGIApp, ASGIApp} on a scratch tree with '
-                'unique file contents and a secret.txt outside every mapped root; every lifespan event sequence of '
-                'length <= 3 over {startup, shutdown, unknown} x 5x5 callback kinds x wrapped app. '
+                'unique file contents and a secret.txt outside every mapped root; every request sequence p1, then all of %d '
+                'probe paths, on ONE application object compared with a fresh application (history independence); every '
+                'lifespan event sequence of length <= 3 over {startup, shutdown, unknown} x 5x5 callback kinds x wrapped app. '
                 'distinct_nontrivial = distinct (path, mapping, endpoint, wrapped) request configurations.'
-                % (maxseg, SEGS, len(paths), ENDPOINTS),
+                % (maxseg, SEGS, len(paths), ENDPOINTS, len(PAIR_PATHS)),
         'samples': [{'path': '/static/../secret.txt', 'mapping': 'dir', 'endpoint': 'engine.io'},
                     {'path': '/static/sub/', 'mapping': 'default_override'},
                     {'path': '/engine.iox/', 'endpoint': '/engine.io/'},
                     {'lifespan': ['lifespan.startup', 'lifespan.bogus', 'lifespan.shutdown'], 'up': 'araise'}],
         'exhaustive': True,
-        'route_runs': tot['runs'], 'answered_by': {k: tot[k] for k in ('engine', 'file', 'wrapped', '404', 'other')},
+        'route_runs': tot['runs'], 'request_pair_runs': npairs, 'answered_by': {k: tot[k] for k in ('engine', 'file', 'wrapped', '404', 'other')},
         'lifespan_cases': lcases, 'lifespan_distinct_outcomes': len(louts),
         'violating_cases_total': nviol,
     }
@@ -503,6 +598,16 @@ def run(ctx):
 
 def replay(ctx, payload):
     r = payload['replay']
+    if r['harness'] == 'pair':
+        top, base = make_tree()
+        try:
+            out = []
+            run_pairs(base, out)
+            for v in out[:5]:
+                print('REPLAY VIOLATION:', v.text)
+            return 1 if out else 0
+        finally:
+            shutil.rmtree(top, ignore_errors=True)
     if r['harness'] == 'lifespan':
         got = run_lifespan(r['seq'], r['up'], r['down'], r['wrapped'])
         want = ref_lifespan(r['seq'], r['up'], r['down'], r['wrapped'])
